@@ -172,8 +172,11 @@ def check(ctx, stmts, text, wit, workload, um=(), files=None, hits=()):
         parts = [stmts[a:b] for a, b in zip([0, *cuts], [*cuts, len(stmts)])]
         paths = []
         for part in parts:
-            name = "".join(ctx.rng.choice("abcdefghijklmnopqrstuvwxyz0123456789_") for _ in range(ctx.rng.randint(1, 9))) + ".dec"
-            pth = os.path.join(d, name)
+            while True:      # random names (their order must not matter), distinct within one case
+                name = "".join(ctx.rng.choice("abcdefghijklmnopqrstuvwxyz0123456789_") for _ in range(ctx.rng.randint(1, 9))) + ".dec"
+                pth = os.path.join(d, name)
+                if pth not in paths:
+                    break
             body = L.render(part)
             style = ctx.rng.choice(["newline", "newline", "no-final-newline", "ends-in-comment-without-newline"])
             if part is not parts[-1] or ctx.rng.random() < 0.5:
